@@ -837,8 +837,9 @@ def seq_differential(ctx, spec, exe, proofs_ok, tag=None, scale=1.0):
                     total[k] = round(total.get(k, 0) + part[k], 1)
             _merge_acc(total.setdefault("model_disagreements", {}), part.get("model_disagreements", {}))
             _merge_acc(total.setdefault("distribution", {}), part.get("distribution", {}))
-        if len(ctx.violations) > nviol:
-            break
+        known_sigs = {k.get("signature") for k in ctx.known if k.get("status", "known") == "known"}
+        if sum(1 for v in ctx.violations[nviol:] if v["signature"].replace("~patience:", ":", 1) not in known_sigs):
+            break           # (a recorded known finding does not end the exploration)
     total["distinct_nontrivial"] = len(distinct)
     total["rounds"] = r + 1
     ctx.coverage["parts"][tag] = total
